@@ -40,6 +40,7 @@ struct C13Engine : sim::Engine {
         simdev::Config c;
         c.order = (int)p.geti("dev.order"); c.order_seed = p.getu("dev.order_seed", 1); c.dup_permille = (unsigned)p.geti("dev.dup");
         c.isolate = p.geti("dev.isolate") != 0; c.defer = p.geti("dev.defer") != 0; c.lazy_h2d = p.geti("dev.lazy") != 0;
+        c.geometry_only = p.geti("dev.geometry_only", 0) != 0;
         c.warp = (int)p.geti("dev.warp", 32); if (c.warp < 1) c.warp = 1; if (c.warp > 64) c.warp = 64;
         sim::HeapCfg h; h.reuse = (int)(p.geti("heap.reuse") & 3); h.poison_seed = p.getu("heap.poison", 1); h.fill = (int)(p.geti("heap.fill") % 3); h.malloc0_null = false;
         auto& dev = simdev::device();
